@@ -56,7 +56,8 @@ let outcome (before : state) w =
   | ["B"; e] ->
     let x = before.s_x (ni e) in
     (match x.x_pay with
-     | Some pid when (before.s_pay pid).p_exc -> "E"
+     | Some pid when (before.s_pay pid).p_exc
+                     || (not (before.s_pay pid).p_eof && not (before.s_conn x.x_conn).c_conn) -> "E"
      | _ -> "B")
   | _ -> "-"
 let snapshot s (before : state) w =
